@@ -1,4 +1,9 @@
 use super::{Recorder, SetRecorderError};
+#[cfg(metrics_verif)]
+use crate::__verif::sync::atomic::AtomicUsize;
+#[cfg(metrics_verif)]
+use std::{cell::UnsafeCell, sync::atomic::Ordering};
+#[cfg(not(metrics_verif))]
 use std::{
     cell::UnsafeCell,
     sync::atomic::{AtomicUsize, Ordering},
